@@ -58,12 +58,16 @@ def expected_minus_two(cfg, recipe):
     for r in refmodel.recipe_nodes(recipe):
         if r["k"] in ("ccAny", "ccXor") and r.get("default"):
             d = r["default"][0]
+            if any(a["k"] != "var" for a in r["args"]):
+                return None                      # alternatives that are rules themselves: the helper is not identified by leaf ids
             args = [a["id"] for a in r["args"]]
             if d not in args or len(args) < 2:
                 continue
             comp = sorted(a for a in args if a != d)
             found = [nid for nid, nd in graph.items() if not nd["leaf"] and sorted(nd["ch"]) == comp and nd["value"] == 1 and nd["sign"] == 1
                      and any((not p["leaf"]) and sorted(map(str, p["ch"])) == sorted([d, nid]) for p in graph.values())]
+            if not found:
+                return ("no-default-structure", r)          # a default among >= 2 plain alternatives always splits the rule into default + helper
             if len(found) != 1 or count.get(found[0], 0) != 1:
                 return None
             exp.add(found[0])
@@ -99,6 +103,9 @@ def judge(ctx, case, cfg, rec, prios_list):
     exp2 = expected_minus_two(cfg, case["recipe"])
     if exp2 is None:
         ctx.count("default-prios:ambiguous(not judged)")
+    elif isinstance(exp2, tuple):
+        ctx.check(False, "default-prios", lambda: {"recipe": case["recipe"], "columns": ids, "default_prio_vector": dpv, "rule-without-its-default-structure": exp2[1],
+                                                  "built": adapters.model_text(cfg)})
     else:
         want = [-2 if i in exp2 else -1 for i in ids]
         dp = cfg.default_prios
@@ -168,7 +175,7 @@ def gen_case(rng, tier, ctx, i):
         idx = rng.randrange(len(rec["args"]))
         old = rec["args"][idx]
         if old["k"] in ("ccAny", "ccXor") and old.get("id") and old.get("default"):
-            alt = [a["id"] for a in old["args"] if a["id"] != old["default"][0]]
+            alt = [a["id"] for a in old["args"] if a["k"] == "var" and a["id"] != old["default"][0]]
             if alt:
                 new = dict(old, default=[rng.choice(alt)])
                 case["edit"] = {"index": idx, "rule": new}
